@@ -13,12 +13,33 @@ T  harness/dag_driver.cpp builds random workflows of <= 30 execs / comms / I/Os 
    activities) and through create_DAG_from_json / create_DAG_from_DAX (files generated here); API calls are logged
    before they are made, on_veto / on_start / on_completion when they fire; Dag_trace.tla replays each log with the
    operators of Dag (dates -> ranks; finish dates come from the trace).
+   Two signal-order facts of the code are accepted because the property speaks of dates, not of signal order: a Comm run
+   by maestro releases its successors before its on_completion signal fires (same date; TSilentDone / TOwedDone), and a
+   host-to-host Comm fires on_start twice for one start.
+
+Mutations tried in a scratch worktree (tools/mutbuild.sh, VERIF_REPO / VERIF_BUILD), T part of the quick tier:
+  * s4u_Exec.cpp Exec::set_host on a STARTING exec calls do_start() instead of start() (starts although dependencies are
+    unsolved): CAUGHT (on_start lines of activities the model has not started; 8+ scenarios, api / lazy / json / dax)
+  * Activity.hpp Activity::complete releases the successors before firing on_completion: CAUGHT (start / veto lines of
+    the successors precede the done line of the predecessor; 8+ scenarios)
 """
 import json, os
 import vlib, drivers
 import lib2_common as L
 
 LEVEL = "model_checking"
+META = {"text": "TLC explores module Dag (start() / veto, assignment calls of Exec, Comm and Io, add_successor, completion and "
+                "release of the successors) over every order of assignments, explicit starts, completions and clock ticks for "
+                "all DAGs of at most 3 activities and for sampled DAGs of 4 to 6 activities, with the invariants 'started => "
+                "assigned and all predecessors finished before', 'start date = latest of (finish of predecessors, assignment, "
+                "explicit start when needed)' and 'everything finishes once everything is assigned'; the API calls and the "
+                "on_veto / on_start / on_completion signals recorded from real workflows of up to 30 execs, comms and I/Os "
+                "(API from maestro and from an actor, lazy scheduling, JSON and DAX loaders) are replayed by TLC with the same "
+                "operators, every invariant being evaluated after every recorded event.",
+        "note": "Trusted: TLC; the driver logs API calls immediately before making them and signals when they fire; dates are "
+                "compared through their ranks; finish dates are those of the recorded on_completion signals (durations are not "
+                "predicted); no failure, cancellation or cyclic graph is exercised; DOT loader not built here (no graphviz).",
+        "technique": "TLC model checking of Dag / DagMC + TLC trace validation of real workflow runs (Dag_trace.tla)"}
 DRIVERS = {"dag_driver": (["dag_driver.cpp"], "s4u", [])}
 drivers.register(DRIVERS)
 
@@ -405,7 +426,7 @@ def stats(recs):
     for r in recs:
         if r["e"] == "succ":
             succs.setdefault(r["b"], set()).add(r["a"])
-    dep_started = sum(1 for r in recs if r["e"] == "start" and succs.get(r["a"]))
+    dep_started = len({r["a"] for r in recs if r["e"] == "start" and succs.get(r["a"])})
     return {"vetoes": sum(1 for r in recs if r["e"] == "veto"), "starts_with_preds": dep_started,
             "done": sum(1 for r in recs if r["e"] == "done"), "acts": sum(1 for r in recs if r["e"] == "create")}
 
